@@ -619,7 +619,7 @@ Definition ex_conds : list dcond :=
   [DHeader false MContains (HStr (bs "Subject")) (HStr (bs "a""b\c"));
    DHeader true MIs (HList [bs "To"; bs "Cc"]) (HList [bs "x, y"; bs "] { discard; } #"]);
    DExists true [bs "X-Spam"; bs "X,Y"];
-   DSize true (bs "2048");
+   DSize true false (bs "2048");
    DEnvelope true MMatches [bs "from"] [bs "*@example.org"];
    DAddress false MIs (HList [bs "from"]) (HStr (bs "me@example.org"));
    DBody false true MContains [bs "viagra"; bs """"];
